@@ -43,6 +43,9 @@ CHECKS['C07'] = dict(tech=T + ' (Equation_AST_Node::eval_internal with abstract 
 CHECKS['C09'] = dict(tech=T + ' of evaluator nodes (Block, Scopeless_Block, If, While, Logical_And/Or, Try, Equation) with abstract children that return or throw at every point',
    text='Inductive step per node kind: with every child eval() an abstract call that returns or throws any of 7-9 exception kinds (the crash-point quantifier becomes a solver choice), the real eval_internal restores scope, stack and call depth on every exit, normal or throwing; the node-level control flow (order, short circuit, branch selection, break/continue, value) is checked in the same queries.',
    note='new_scope/pop_scope/function-call bookkeeping are counters here (their real code is not yet covered); nodes not listed are not covered yet; the induction over the tree is an argument')
+CHECKS['C20'] = dict(tech=T + ' of the lexer kernels started in a state satisfying the line/column invariant, and of Id() with make_node recorders',
+   text='Coordinate invariant as an inductive step: from ANY cursor whose (line, col) equal 1 + newlines before it / 1 + bytes since the last newline, each lexer kernel (incl. every backtracking step) ends in a state satisfying the same equation, for all buffers up to N bytes; identifier nodes are created with the coordinates of the identifier\'s first byte. Any history of kernel calls therefore keeps locations exact.',
+   note='trace plumbing (AST_Node_Impl::eval appending its own location, innermost first) and the error raised by Id/Fun_Call nodes are not covered yet; file names are not covered')
 ALL = ['C%02d' % i for i in range(1, 21)]
 def main():
     checks = []
